@@ -255,3 +255,54 @@ func init() {
 		intrinsics[k] = f
 	}
 }
+
+// hex / base64 into caller-supplied buffers: defined through the string forms. The destination slice value is
+// re-pointed at the encoded cells (an opaque source yields opaque text cells, whose number differs from the
+// real byte count; holders of the same slice header see the result, which is what `buf := make(..); Encode(buf,
+// src); use(buf)` needs).
+func init() {
+	viaString := func(enc string, srcArg, dstArg int, prefixArgs int) ixFn {
+		return func(in *Interp, fr *Frame, a []Value) (Value, bool) {
+			f := intrinsics[enc]
+			var args []Value
+			args = append(args, a[:prefixArgs]...)
+			args = append(args, a[srcArg])
+			sv, _ := f(in, fr, args)
+			cells := in.stringToBytes(sv)
+			var n int
+			if cells.R != nil {
+				n = len(cells.R.(*SliceV).S)
+			}
+			if a[dstArg].R == nil {
+				if n > 0 {
+					in.goPanic(in.cur, "index out of range (encode into a nil buffer)")
+				}
+				return mkInt(0, 64), true
+			}
+			dst := a[dstArg].R.(*SliceV)
+			if cells.R != nil {
+				dst.S = append([]Value{}, cells.R.(*SliceV).S...)
+			} else {
+				dst.S = []Value{}
+			}
+			return mkInt(uint64(n), 64), true
+		}
+	}
+	intrinsics["encoding/hex.Encode"] = viaString("encoding/hex.EncodeToString", 1, 0, 0)
+	intrinsics["(*encoding/base64.Encoding).Encode"] = func(in *Interp, fr *Frame, a []Value) (Value, bool) {
+		viaString("(*encoding/base64.Encoding).EncodeToString", 2, 1, 1)(in, fr, a)
+		return Value{}, true
+	}
+	appendVia := func(enc string, prefixArgs int) ixFn {
+		return func(in *Interp, fr *Frame, a []Value) (Value, bool) {
+			f := intrinsics[enc]
+			var args []Value
+			args = append(args, a[:prefixArgs]...)
+			args = append(args, a[prefixArgs+1])
+			sv, _ := f(in, fr, args)
+			return in.appendBytes(a[prefixArgs], sv), true
+		}
+	}
+	intrinsics["encoding/hex.AppendEncode"] = appendVia("encoding/hex.EncodeToString", 0)
+	intrinsics["(*encoding/base64.Encoding).AppendEncode"] = appendVia("(*encoding/base64.Encoding).EncodeToString", 1)
+}
